@@ -1,9 +1,9 @@
 #!/bin/sh
 # tools/seed_quick.sh <seed-id> <property> [--only regex]   quick triage: check only (no demo, no test-suite), scratch worktree
 ID=$1; P=$2; shift 2
-W=/tmp/sq_$ID
+W=/tmp/sq_${ID}_$$
 git -C /repo worktree remove --force $W >/dev/null 2>&1
 git -C /repo worktree add -q --detach $W HEAD || exit 3
 git -C $W apply /verif/seeded/$ID/patch.diff || { echo "patch does not apply"; git -C /repo worktree remove --force $W; exit 3; }
-cd /verif && VF_REPO=$W VF_EVID=/tmp/sq_evid_$ID ./check $P "$@" 2>&1 | grep -E "VIOLATION|KNOWN|HARNESS|tier=|key=" | cut -c1-400
-git -C /repo worktree remove --force $W >/dev/null 2>&1; rm -rf /tmp/sq_evid_$ID
+cd /verif && VF_REPO=$W VF_EVID=/tmp/sq_evid_${ID}_$$ ./check $P "$@" 2>&1 | grep -E "VIOLATION|KNOWN|HARNESS|tier=|key=" | cut -c1-400
+git -C /repo worktree remove --force $W >/dev/null 2>&1; rm -rf /tmp/sq_evid_${ID}_$$
